@@ -23,7 +23,7 @@ ASSUMPTIONS = ["annotation identity is the annotation object's own ==/hash (test
 
 
 def floors(tier):
-    return {"applications_judged": 5000, "applications_with_ne_or_rel": 1500, "simplify_judged": 100, "solver_simplify_judged": 20, "result_differs_from_plain_node": 300}
+    return {"applications_judged": 5000, "applications_with_ne_or_rel": 1500, "simplify_judged": 100, "solver_simplify_judged": 20, "substitutions_folded_to_a_constant": 50, "result_differs_from_plain_node": 300}
 
 
 def plan(tier, seed):
@@ -33,6 +33,7 @@ def plan(tier, seed):
     S += [{"kind": "ifs", "stream": i, "n": 300 if q else 3000} for i in range(2 if q else 4)]
     S += [{"kind": "simplify", "stream": i, "n": 250 if q else 2500} for i in range(2 if q else 4)]
     S += [{"kind": "solver", "stream": i, "n": 60 if q else 600} for i in range(2 if q else 4)]
+    S += [{"kind": "substitute", "stream": i, "n": 400 if q else 4000} for i in range(2 if q else 4)]
     return S
 
 
@@ -213,6 +214,42 @@ def run_shard(spec, res):
                 if bad:
                     res.violation({"kind": "annotation", "what": "simplify-dropped-annotation", "when": label, "case": d, "expr": repr(e)[:200], "expr_annotations": repr(e.annotations), "result": repr(s_)[:200], "result_annotations": repr(s_.annotations), "observed": repr(bad[0])})
                     break
+    elif k == "substitute":
+        # variables of an annotated expression replaced by constants: the nodes above them fold, and what they carried
+        # (a pinned annotation on an inner node, a relocatable one) must still be somewhere in the result
+        for i in range(spec["n"]):
+            g = G.Gen(rng, nvars=rng.choice([1, 2]), widths=[4, 8, 32], surface=False, allow_div=False)
+            d = g.any(rng.choice([1, 2, 3]))
+            try:
+                e = astwork.build_annotated(d, rng, p=0.35)
+            except claripy.errors.ClaripyError:
+                continue
+            if not isinstance(e, claripy.ast.Base) or not e.symbolic:
+                continue
+            leaves = [x for x in e.leaf_asts() if x.symbolic]
+            if not leaves:
+                continue
+            some = leaves if rng.random() < 0.6 else rng.sample(leaves, 1)
+            table = {x.hash(): (claripy.BVV(rng.getrandbits(x.length), x.length) if isinstance(x, claripy.ast.BV) else claripy.BoolV(rng.random() < 0.5)) for x in some}
+            before_ne = own_ne(e)
+            before_rel = top_rel(e)
+            try:
+                r = claripy.replace_dict(e, dict(table)) if len(some) > 1 or rng.random() < 0.5 else claripy.replace(e, some[0], table[some[0].hash()])
+            except claripy.errors.ClaripyError as ex:
+                res.count("substitute_raised:" + type(ex).__name__)
+                continue
+            keep.append((e, r))
+            res.case(["substitute", d, repr(sorted(map(repr, before_ne)))[:200]], nontrivial=bool(before_ne or before_rel))
+            res.count("substitutions_judged")
+            if not r.symbolic:
+                res.count("substitutions_folded_to_a_constant")
+            after = own_ne(r)
+            # (an annotation on a replaced leaf itself goes with the leaf)
+            gone_with_leaf = [a for x in some for a in x.annotations]
+            lost = [a for a in before_ne if not has(after, a) and not has(gone_with_leaf, a)]
+            lost_rel = [a for a in before_rel if not has(r.annotations, a) and not has(gone_with_leaf, a)]
+            if lost or lost_rel:
+                res.violation({"kind": "annotation", "what": "annotation-removed-by-substitution-and-folding", "case": d, "expr": repr(e)[:200], "result": repr(r)[:120], "result_annotations": repr(r.annotations), "lost": [repr(a) for a in (lost + lost_rel)][:4], "top_relocatable_lost": bool(lost_rel)})
     elif k == "solver":
         for i in range(spec["n"]):
             cls = [claripy.Solver, claripy.SolverComposite, claripy.SolverCacheless, claripy.SolverHybrid, claripy.SolverReplacement][i % 5]
